@@ -78,7 +78,7 @@ def negatives(rng, streams):
     out = []
     for kind, s, t, ans, p in streams:
         if kind == "http" and p is not None:
-            for f in rng.sample(["header_no_colon", "nondigit_minor", "no_final_empty_line", "misspelt_http"], 2):
+            for f in rng.sample(["header_no_colon", "nondigit_minor", "no_final_empty_line", "misspelt_http", "folded_header", "folded_header"], 2):
                 out.append(("http_neg", http.fault(rng, p, f), None, False, None))
             # a foreign preface followed by a valid request: unanswered in one piece, so unanswered under every cut
             # (in particular the cut that falls exactly at the start of the request)
@@ -236,7 +236,9 @@ def shard(ctx, budget_s, n_http, n_rpc, maxlen):
     cfg = gen.rnd_config(rng, deny=False, logger="n", level=0)
     ctx.case(cfg)
     streams = gen_streams(rng, n_http, n_rpc, maxlen)
-    streams += negatives(rng, streams)[:6 if ctx.tier == "quick" else 24]
+    negs = negatives(rng, streams)
+    rng.shuffle(negs)           # prefaced requests and single-fault requests alike
+    streams += negs[:8 if ctx.tier == "quick" else 32]
     hist = ctx.extra.setdefault("first_cut_histogram", {})
     for si, (kind, stream, trig, _ans, _p) in enumerate(streams):
         if time.time() > deadline and si > 0:
@@ -257,18 +259,21 @@ def shard(ctx, budget_s, n_http, n_rpc, maxlen):
             ctx.violation("%s:unsegmented_unanswered" % kind, "complete valid request not answered when delivered in one segment", observed=r0.kind,
                           frames=[ref[0][0][3]], extra={"stream": stream.hex()})
             continue
-        if kind == "http_neg" and ref_payload is not None:
-            ctx.stats["negative_answered_unsegmented(C13)"] += 1
-            continue
         # cross-check the grammar's trigger byte against the byte-wise run
         bw = [segs for cuts, segs in res if cuts == list(range(1, len(stream)))]
+        okind = kind
+        if kind == "http_neg" and ref_payload is not None:
+            # whether such a stream *should* be answered is C13's business; that it is answered in one piece makes it, for
+            # this property, a stream that has to be answered - with the same content, at the same byte - however it is cut
+            ctx.stats["negative_answered_unsegmented(C13)"] += 1
+            okind, kind = "http_neg", "rpc_odd"
         if kind == "rpc_odd":
             if ref_payload is None or not bw:
                 ctx.stats["rpc_odd_unanswered_unsegmented"] += 1
                 continue
             trig = next((i for i, x in enumerate(bw[0]) if x[4].kind == "R" and pkt.parse(x[4].reply).get("data")), None)
             if trig is None:
-                ctx.violation("rpc_odd:bytewise_unanswered", "stream answered in one segment but never when delivered byte by byte", observed="no reply",
+                ctx.violation(okind + ":bytewise_unanswered", "stream answered in one segment but never when delivered byte by byte", observed="no reply",
                               frames=[x[3] for x in bw[0][:60]], extra={"stream": stream.hex(), "cuts": list(range(1, len(stream)))})
                 continue
         if bw and ref_payload is not None and kind != "rpc_odd":
